@@ -39,7 +39,7 @@ pub open spec fn is_decoration_of(c: Seq<u8>, m: Seq<u8>, cc: Option<ClangAbi>) 
 UNIT = {
     "name": "link_name",
     "env": [os.path.join(ENV, "link_name_env.rs")],
-    "declared_trusted": {r"external_body": 6},
+    "declared_trusted": {r"external_body": 13},
     "items": [
         {"kind": "enum", "file": FN, "name": "Abi", "prefix": "#[derive(Copy, Clone, PartialEq, Eq, Structural)]"},
         {"kind": "enum", "file": FN, "name": "ClangAbi", "prefix": "#[derive(Copy, Clone, PartialEq, Eq, Structural)]"},
@@ -71,11 +71,34 @@ UNIT = {
     ],
 }
 
+# the call site for global variables (let-statement, R18): found and repaired F13 (an overridden link name was not spelled out)
+UNIT["items"].append(
+    {"kind": "fn", "file": CG, "name": "var_symbol", "impl": r"^impl CodeGenerator for Var$", "ret": "r",
+     "closure": {"enclosing": "codegen", "anchor": "let symbol: &str = if let Some(link_name) = self.link_name() {", "nth": 0, "stmt": "let",
+                 "signature": "fn var_symbol<'a>(self_: &'a Var, canonical_name: &'a String, attrs: &mut Vec<Tok>) -> (r: &'a str)", "prefix": "{", "suffix": "; symbol }"},
+     "subst": [
+         ("attributes::link_name::<false>(", "attr_link_name(", 1, "R4"),
+         ("self.mangled_name().unwrap_or_else(|| self.name())", "(match self_.mangled_name() { Some(m) => m, None => self_.name() })", 1, "R7"),
+         ("utils::names_will_be_identical_after_mangling( &canonical_name,", "names_will_be_identical_after_mangling( string_as_str(canonical_name),", 1, "module path; &String -> &str"),
+         ("canonical_name.as_str()", "string_as_str(canonical_name)", 1, "R21"),
+         ("self", "self_", 1, "R18 captured self"),
+     ],
+     "ensures": [
+         # C04: the binding refers to the symbol it is supposed to: an overridden link name is always spelled out ...
+         "self_.s_link_name().is_some() ==> r == self_.s_link_name().unwrap() && final(attrs)@.len() == old(attrs)@.len() + 1 "
+         "&& final(attrs)@.subrange(0, old(attrs)@.len() as int) == old(attrs)@ && link_name_of(final(attrs)@.last()) == bytes_of(self_.s_link_name().unwrap())",
+         # ... otherwise the compiler's symbol is named unless it is the Rust name or its platform decoration
+         "self_.s_link_name().is_none() ==> ({ let ln = (match self_.s_mangled_name() { Some(m) => m, None => self_.s_name() }); "
+         "let same = bytes_of_string(canonical_name) == bytes_of(ln) || is_decoration_of(bytes_of_string(canonical_name), bytes_of(ln), None); "
+         "if same { final(attrs)@ == old(attrs)@ && bytes_of(r) == bytes_of_string(canonical_name) } "
+         "else { r == ln && final(attrs)@.len() == old(attrs)@.len() + 1 && link_name_of(final(attrs)@.last()) == bytes_of(ln) } })",
+     ]})
+
 # Known finding F9 (witness): the decision has no idea of the target.  On an object format that adds no
 # prefix (ELF), `_name` is NOT the decoration of `name`: the only name rustc links without #[link_name]
 # is the Rust name itself.  This contract is expected to FAIL on the unchanged tree.
 import copy as _copy
-_w = _copy.deepcopy(UNIT["items"][-1])
+_w = _copy.deepcopy(next(i for i in UNIT["items"] if i.get("name") == "names_will_be_identical_after_mangling"))
 _w["rename"] = "names_will_be_identical_after_mangling__elf"
 _w["rename_tag"] = "@undecorated_target_F9"
 _w["witness"] = True
